@@ -454,7 +454,7 @@ DEFECTS = [
     "ntrees0", "ntrees1", "ntrees7", "bitmap_empty", "incomplete_used", "incomplete_unused", "oversub_used",
     "oversub_unused", "no_eob", "overflow1", "idx_eq_n", "idx_big", "blkcrc", "strmcrc", "trunc", "runlen4",
     "bad_block_magic", "bad_eos_magic", "flipbit", "trailing_stream_trunc", "header_digit0", "short_file",
-    "overflow_stream2",
+    "overflow_stream2", "header_digit_empty",
 ]
 
 
@@ -600,6 +600,14 @@ def one_defect(rng, kind=None, maxlen=300):
     elif kind == "header_digit0":
         data = bytearray(to_bytes(stream(blocks, level, rng)))
         data[3] = rng.choice([0x30, 0x3A, 0x00, 0x41])
+        return bytes(data), kind, "reject"
+    elif kind == "header_digit_empty":
+        # a first stream WITHOUT blocks whose level digit is not 1..9 (nothing but the 4-byte sniff of work() can reject it),
+        # optionally followed by a valid stream
+        data = bytearray(to_bytes(stream([], level, rng)))
+        data[3] = rng.choice([0x30, 0x30, 0x30, 0x2F, 0x3A, 0x00, 0x41])
+        if rng.chance(1, 2):
+            data += to_bytes(stream(blocks, level, rng))
         return bytes(data), kind, "reject"
     elif kind == "short_file":
         return rng.choice([b"", b"B", b"BZ", b"BZh", b"BZh9", b"BZh9\x17", b"BZh9\x17\x72\x45\x38\x50\x90\x00\x00\x00"]), kind, "reject"
